@@ -46,8 +46,13 @@ Definition pop_model : list ptok := [KDequeue; KLock; KClearFlag].
 Definition poll_model : list ptok :=
   [KIsEmptyRet; KRegister; KLoop; KBudgetSelfWake; KPop; KEmptyPending; KInconsSelfWake; KChildPoll].
 
-Definition protocol_matches (wake push pop poll : list ptok) : bool :=
-  toks_eqb wake wake_by_ref_model && toks_eqb push push_model && toks_eqb pop pop_model && toks_eqb poll poll_model.
+Definition protocol_matches (wake push pop : list ptok) : bool :=
+  toks_eqb wake wake_by_ref_model && toks_eqb push push_model && toks_eqb pop pop_model.
+
+(** the skeleton of the owner's poll loop is sequential code (plus the hook-point windows the harness
+    injects wakes into): it is a lemma of its own, and the check may re-validate a changed skeleton
+    by the escalated correspondence instead (DESIGN.md, section 5) *)
+Definition poll_skeleton_matches (poll : list ptok) : bool := toks_eqb poll poll_model.
 
 (** the owners' side of the reference count, as ConcRefcount.v assumes it: a clone is one
     increment; dropping the collection's handle or a waker is one decrement and the owner that
